@@ -106,11 +106,11 @@ impl World for MpmcWorld {
         &["C01", "C08", "C09", "C10", "C11", "C17", "C18"]
     }
     fn configs(&self, tier: Tier) -> Vec<Cfg> {
-        let k = if tier == Tier::Quick { 3 } else { 4 };
+        let k = if tier == Tier::Quick { 4 } else { 5 };
         let mut v = Vec::new();
         for flavour in [FL_LOCAL, FL_SYNC, FL_CHECKED, FL_SHARED, FL_SHARED_CHECKED] {
             for y in [BUF_ARRAY, BUF_FIXED, BUF_GROWING] {
-                for x in 0..=3u8 {
+                for x in [0u8, 1, 2, 3, 5] {
                     v.push(Cfg { flavour, mode: 0, x, y, k });
                 }
             }
@@ -162,7 +162,8 @@ impl World for MpmcWorld {
                     (BUF_ARRAY, 0) => run_m::<$m, ArrayBuf<Tagged, [Tagged; 0]>>(cfg, ops, run),
                     (BUF_ARRAY, 1) => run_m::<$m, ArrayBuf<Tagged, [Tagged; 1]>>(cfg, ops, run),
                     (BUF_ARRAY, 2) => run_m::<$m, ArrayBuf<Tagged, [Tagged; 2]>>(cfg, ops, run),
-                    (BUF_ARRAY, _) => run_m::<$m, ArrayBuf<Tagged, [Tagged; 3]>>(cfg, ops, run),
+                    (BUF_ARRAY, 3) => run_m::<$m, ArrayBuf<Tagged, [Tagged; 3]>>(cfg, ops, run),
+                    (BUF_ARRAY, _) => run_m::<$m, ArrayBuf<Tagged, [Tagged; 5]>>(cfg, ops, run),
                     (BUF_FIXED, _) => run_m::<$m, FixedHeapBuf<Tagged>>(cfg, ops, run),
                     _ => run_m::<$m, GrowingHeapBuf<Tagged>>(cfg, ops, run),
                 }
